@@ -59,6 +59,37 @@ def lines_text(rng, n, endings):
     return out[:n]
 
 
+CRLF_TEXTS = [b"a\n\nb\n", b"a\r\rb\r", b"a\r\n\r\nb\r\n", b"a\n\r\n\rb\n\r", b"a\n\n\nb", b"a\r\r\rb", b"\n\nlead", b"\r\rlead", b"trail\n\n", b"trail\r\r",
+              b"\n", b"\r", b"\n\n", b"\r\r", b"\n\r\n", b"\r\n\r", b"\r\r\n", b"\n\n\r", b"\r\n\n", b"\n\r\r", b"a\n\r\r\nb", b"a\r\n\n\rb",
+              b"l1\n\nl2\r\rl3\r\n\r\nl4\n\r\n\rl5", b"A=ANALOGUE,M=mono\n\nA=PCM,F=48000,W=16,M=mono\n"]
+CRLF_TAILS = [b"\n", b"\r", b"\r\n", b"\n\r", b"\n\n", b"\r\r", b"\n\nz", b"\r\n\r\n"]
+
+
+def crlf_scripts(rng):
+    """(name, kind, container, sets): bext coding histories and cart tag texts whose LINE STRUCTURE is the subject — every text on WAV (the
+    normaliser is container-independent), a fixed quarter of them on the other containers; then texts of 16374..16383 bytes whose last
+    line end(s) straddle the end of the 16 KiB field (the copy stops BETWEEN tokens)"""
+    out = []
+    for i, t in enumerate(CRLF_TEXTS):
+        for cont in ("wav", "wavex", "rf64", "rifx"):
+            if cont == "wav" or i % 4 == ("wavex", "rf64", "rifx").index(cont):
+                out.append(("bext-crlf-%s-%d" % (cont, i), "bext", cont, [bext_cmd(rng, t)]))
+        for cont in ("wav", "rf64", "rifx"):
+            if cont == "wav" or i % 4 == 1 + ("rf64", "rifx").index(cont):
+                out.append(("cart-crlf-%s-%d" % (cont, i), "cart", cont, [cart_cmd(rng, t), S(4, b"A")]))
+    k = 0
+    for body in (16374, 16378, 16379, 16380, 16381, 16382):
+        for tail in CRLF_TAILS:
+            k += 1
+            t = (b"line one\n\n" + b"x" * body)[:body] + tail
+            if len(t) > 16383:      # the 16 KiB field of the _16K structs holds at most 16383 bytes + NUL: longer blocks are outside the documented limits
+                continue
+            out.append(("cart-crlf-edge-wav-%d-%d" % (body, k), "cart", "wav", [cart_cmd(rng, t), S(4, b"A")]))
+            if k % 3 == 0:
+                out.append(("bext-crlf-edge-wav-%d-%d" % (body, k), "bext", "wav", [bext_cmd(rng, t)]))
+    return out
+
+
 def bext_cmd(rng, hist, h="h0", **over):
     vals = {"description": text(rng, rng.choice([0, 1, 17, 255, 256]), ascii_only=True), "originator": text(rng, rng.choice([0, 5, 32]), ascii_only=True),
             "originator_reference": text(rng, rng.choice([0, 31, 32]), ascii_only=True), "origination_date": b"2026-09-29", "origination_time": b"21:00:00",
@@ -176,6 +207,11 @@ def gen(ctx):
             if n and rng.random() < 0.5:
                 tag = tag.rstrip(b"\r\n") or b"y"
             add("cart-%s-%d" % (cont, n), "cart", cont, [cart_cmd(rng, tag), S(4, b"A")])
+    # 3b. the line-end normaliser on LINE STRUCTURE (round 9, seed C12-crlf-empty-line-collapse): empty lines, runs of line ends of every
+    #     kind and mix, leading / trailing line ends, and texts that fill the 16 KiB field up to the middle of a pair.  Deterministic: the
+    #     texts of 3. never hold two line ends in a row.  Lean: SfProps/C12Crlf.lean (crlf_keeps_lines, crlf_truncates_at_token).
+    for (name, kind, cont, sets) in crlf_scripts(rng):
+        add(name, kind, cont, sets)
     # 4. cue points
     for cont in ("wav", "wavex", "rifx"):
         for n in [0, 1, 2, 3, 10, 50, 99, 100] + ([101, 500, 2500] if thorough else []):
@@ -187,6 +223,10 @@ def gen(ctx):
             add("cue-namelen-%s-%d" % (cont, ln), "cues", cont, [M.setcues_line("h0", cs)])
     for n in [0, 1, 2, 3, 10, 50, 100] + ([101, 1000, 2500] if thorough else []):
         add("cue-aiff-%d" % n, "cues", "aiff", [M.setcues_line("h0", cues(rng, n, names=True))])
+    for ln in (1, 2, 252, 253, 254, 255):      # AIFF marker names are pascal strings: every length up to the 255 characters SF_CUE_POINT.name holds (KF-C12-AIFF-CUE-NAME-254)
+        cs = cues(rng, 3, names=True)
+        cs[1] = cs[1][:6] + (text(rng, ln, ascii_only=True).replace(b" ", b"_"),)
+        add("cue-namelen-aiff-%d" % ln, "cues", "aiff", [M.setcues_line("h0", cs)])
     # 5. instrument
     for cont in ("wav", "wavex", "rifx"):
         for n in [0, 1, 2, 8, 15, 16]:
